@@ -754,3 +754,74 @@ func tailCallOf(ret *ssa.Return, ei int) *ssa.Call {
 	}
 	return call
 }
+
+// stallEdgesOf returns the CFG edges of the target computation's body on which the stall test
+// (Fan.GetRpmAvg() <= / < constant) is established.
+func (r *regulation) stallEdgesOf(ci *cycleInfo) []edge {
+	var stallEdges []edge
+	body := ci.body
+	if len(body) == 0 && ci.target != nil {
+		body = []*ssa.Function{ci.target}
+	}
+	var bodyBlocks []*ssa.BasicBlock
+	for _, bf := range body {
+		bodyBlocks = append(bodyBlocks, bf.Blocks...)
+	}
+	for _, b := range bodyBlocks {
+		for si := range b.Succs {
+			if ir.HasFact(ir.EdgeFacts(b, si), token.LEQ, func(x, y ssa.Value) bool {
+				call, ok := x.(*ssa.Call)
+				_, isConst := ir.ConstFloat(y)
+				return ok && isFanInvoke(call, "GetRpmAvg") && isConst
+			}) || ir.HasFact(ir.EdgeFacts(b, si), token.LSS, func(x, y ssa.Value) bool {
+				call, ok := x.(*ssa.Call)
+				_, isConst := ir.ConstFloat(y)
+				return ok && isFanInvoke(call, "GetRpmAvg") && isConst
+			}) {
+				stallEdges = append(stallEdges, edge{b, si})
+			}
+		}
+	}
+	return stallEdges
+}
+
+// ruleFloorCap (C02): the floor is raised only where request < Fan.GetMaxPwm() is established. The request is
+// >= the floor (envelope), so the raised floor stays <= the maximum; a floor above the maximum makes the
+// rescale's range negative and later requests fall below the raised minimum.
+func (r *regulation) ruleFloorCap(rule string) {
+	c := r.c
+	n := 0
+	for _, ci := range r.cycles {
+		if ci.target == nil || ci.maxSym == nil {
+			continue
+		}
+		isMax := func(v ssa.Value) bool { return v == ci.maxSym || ir.RootP(v, c.StaticCallers) == ci.maxSym }
+		below := func(b *ssa.BasicBlock, si int) bool {
+			fs := ir.EdgeFacts(b, si)
+			return ir.HasFact(fs, token.LSS, func(x, y ssa.Value) bool { return isMax(y) }) ||
+				ir.HasFact(fs, token.GTR, func(x, y ssa.Value) bool { return isMax(x) })
+		}
+		starts := edgeStarts(r.stallEdgesOf(ci))
+		if len(starts) == 0 {
+			continue
+		}
+		var reached ssa.Instruction
+		ir.Search{StopEdge: below}.Reach(starts, func(ins ssa.Instruction, _ *ssa.BasicBlock) {
+			for _, x := range ci.incrCalls {
+				if x == ins && reached == nil {
+					reached = ins
+				}
+			}
+		})
+		n++
+		key := c.FK(ci.target)
+		if reached != nil {
+			c.R.Bad(rule, key, key, c.P.Pos(reached.Pos()), "the floor of a stalled fan can be raised on a path that did not establish request < Fan.GetMaxPwm(): the floor (GetMinPwm() + offset) can pass the fan's maximum, the rescale range turns negative and later requests fall below the raised minimum")
+		} else {
+			c.R.Ok(rule, key, key, c.P.Pos(ci.target.Pos()), "every path from the stall edge to a floor raise crosses an edge establishing request < Fan.GetMaxPwm() (the raised floor stays <= the maximum)")
+		}
+	}
+	if n == 0 {
+		c.R.Undecided(rule, "none", "target computation", "-", "no stall edge / maximum symbol found (anchor unresolved)")
+	}
+}
